@@ -1018,7 +1018,12 @@ def covered_inners(a, msg):
     if not m:
         return None
     n1, n2, final = (ast.literal_eval(x) for x in m.groups())
-    # different slugs that the documented safe_name maps to one name: the open finding
+    # the handler renamed the inner classes as documented (reference `ref_inner_names`) ...
+    names = list(dict.fromkeys(a["names"]))
+    io = impl_rename_inners({"names": names, "ns": a.get("ns")})
+    if "ok" not in io or io["ok"] != ref_inner_names(names, "outer"):
+        return None
+    # ... and two names with different slugs are mapped to one class name by the documented safe_name: the open finding
     if own_slug(n1) != own_slug(n2) and ref_safe_name(n1, "type", "pascalCase") == ref_safe_name(n2, "type", "pascalCase") == final:
         return "C07-safe-prefix-collision"
     return None
@@ -1038,12 +1043,54 @@ def oracle_conflict(a):
     return None
 
 
+def ref_conflict(a):
+    """Documented ValidateAttributesOverrides.validate_attrs on the names of (class attrs, parent attrs)
+    for the inputs of `gen_resolve_conflict` (clashes between attrs of different xml kinds; None when
+    an attr of the class overrides a parent attr of the same kind: not what these inputs are about)."""
+    tn = [x["name"] for x in a["target"]]
+    bn = [x["name"] for x in a["base"]]
+    groups = {}
+    for j, b in enumerate(a["base"]):
+        groups.setdefault(own_slug(b["name"]), []).append(j)
+    kind = lambda x: "A" if x["tag"] in ("Attribute", "AnyAttribute") else "E"  # noqa: E731
+    for i, x in enumerate(a["target"]):
+        grp = groups.get(own_slug(tn[i]))
+        if not grp:
+            continue
+        j = grp[0]
+        b = a["base"][j]
+        if kind(x) == kind(b) and (x["ns"] or None) == (b["ns"] or None):
+            return None
+        if x["tag"] == b["tag"] and (x["ns"] or b["ns"]):
+            side, k = ("b", j) if b["ns"] else ("t", i)
+            spec = b if side == "b" else x
+            new = f"{ref_clean_uri(spec['ns'])}_{bn[k] if side == 'b' else tn[k]}"
+        else:
+            side, k = ("b", j) if b["tag"] == "Attribute" else ("t", i)
+            spec = b if side == "b" else x
+            new = f"{bn[k] if side == 'b' else tn[k]}_{spec['tag']}"
+        reserved = {own_slug(n) for m, n in enumerate(tn) if not (side == "t" and m == k)}
+        reserved |= {own_slug(n) for m, n in enumerate(bn) if not (side == "b" and m == k)}
+        if own_slug(new) in reserved:
+            idx = 1
+            while own_slug(f"{new}_{idx}") in reserved:
+                idx += 1
+            new = f"{new}_{idx}"
+        (bn if side == "b" else tn)[k] = new
+    return [tn, bn]
+
+
 def covered_conflict(a, msg):
-    m = re.search(r"attrs ('(?:[^'\\]|\\.)*') and ('(?:[^'\\]|\\.)*') \(class", msg)
+    m = re.search(r"attrs ('(?:[^'\\]|\\.)*') and ('(?:[^'\\]|\\.)*') \(class.* both become field ('(?:[^'\\]|\\.)*')$", msg, re.S)
     if not m:
         return None
-    n1, n2 = (ast.literal_eval(x) for x in m.groups())
-    if own_slug(n1) != own_slug(n2) and ref_safe_name(n1, "value", "snakeCase") == ref_safe_name(n2, "value", "snakeCase"):
+    n1, n2, final = (ast.literal_eval(x) for x in m.groups())
+    # the handler did what is documented (reference above) ...
+    io = impl_resolve_conflict(a)
+    if "ok" not in io or io["ok"] != ref_conflict(a):
+        return None
+    # ... the two names have different slugs, and the documented safe_name maps both to that field name
+    if own_slug(n1) != own_slug(n2) and ref_safe_name(n1, "value", "snakeCase") == ref_safe_name(n2, "value", "snakeCase") == final:
         return "C07-safe-prefix-collision"
     return None
 
@@ -1118,6 +1165,80 @@ CORRS = [
          describe="RenameDuplicateClasses.run (renames only)",
          classify=classify_rename_classes),
 ]
+
+# ---- the resolver model the layout theorems (Props/C07Layout.lean: module_imports_sufficient,
+# resolver_succeeds) are about is C12's `resolverProcess`; C12's run ties it to the code under forced
+# set orders. This property's run ties it too (driver op `gen.resolver`, own small generator), so the
+# theorems counted here never rest on another property's check having been run.
+
+
+def impl_resolver(a):
+    from toposort import CircularDependencyError
+    from xsdata.codegen.models import AttrType, Status
+    from xsdata.codegen.resolver import DependenciesResolver
+
+    objs = [
+        Class(qname=c["qname"], tag=Tag.COMPLEX_TYPE, location="mem", status=Status.FINALIZED,
+              attrs=[Attr(tag=Tag.ELEMENT, name=f"d{i}", types=[AttrType(qname=d)]) for i, d in enumerate(c["deps"])])
+        for c in a["classes"]
+    ]
+    r = DependenciesResolver({k: v for k, v in a["registry"]})
+    try:
+        r.process(objs)
+        return ok({
+            "class_list": list(r.class_list),
+            "imports": [[i.qname, i.source, i.alias] for i in r.imports],
+            "sorted_imports": [[i.qname, i.source, i.alias] for i in r.sorted_imports()],
+            "sorted_classes": [c.qname for c in r.sorted_classes()],
+        })
+    except CircularDependencyError:
+        return err("CircularDependencyError")
+    except CodegenError as e:
+        msg = getattr(e, "message", str(e))
+        return err("CodegenError:" + ("duplicate" if "Duplicate" in msg else "unresolved"))
+    except Exception as e:  # noqa: BLE001
+        return err("LEAK:" + type(e).__name__)
+
+
+def gen_resolver(rng, tier):
+    def case(classes, registry):
+        return {"classes": classes, "registry": registry}
+
+    yield case([], [])
+    yield case([{"qname": "A", "deps": ["B"]}], [["B", "pkg.b"]])
+    yield case([{"qname": "A", "deps": ["B"]}], [])
+    yield case([{"qname": "A", "deps": []}, {"qname": "A", "deps": []}], [])
+    yield case([{"qname": "A", "deps": ["B"]}, {"qname": "B", "deps": ["A"]}], [])
+    yield case([{"qname": "{urn:m}Main", "deps": ["{urn:a}Item", "{urn:b}Item", "{urn:c}main"]}],
+               [["{urn:a}Item", "pkg.a_mod.items"], ["{urn:b}Item", "pkg.b_mod.items"], ["{urn:c}main", "pkg.c.main_mod"]])
+    nss = ["", "urn:a", "urn:b", "http://x/y"]
+    nms = ["A", "a", "Item", "item", "It-em", "B", "class", "None", "x1", "x_1"]
+    srcs = ["pkg.mod_a", "pkg.mod_b", "other.pkg.mod_a", "pkg.sub.mod_a", "x", "pkg.a_b", "pkg.a.b"]
+    for _ in range(250 if tier == "quick" else 5000):
+        vs = list(dict.fromkeys((f"{{{ns}}}{nm}" if ns else nm) for ns, nm in
+                                ((rng.choice(nss), rng.choice(nms)) for _ in range(rng.randint(1, 10)))))
+        n = rng.randint(1, len(vs))
+        inside, outside = vs[:n], vs[n:]
+        classes = []
+        for k, v in enumerate(inside):
+            cands = inside[:k] if rng.random() < 0.9 else inside
+            deps = [w for w in cands if rng.random() < 0.3] + [w for w in outside if rng.random() < 0.5]
+            if rng.random() < 0.05:
+                deps.append(v)
+            rng.shuffle(deps)
+            classes.append({"qname": v, "deps": deps})
+        if rng.random() < 0.03:
+            classes.append(dict(classes[0]))
+        rng.shuffle(classes)
+        yield case(classes, [[q, rng.choice(srcs)] for q in vs if rng.random() < 0.97])
+
+
+CORRS.append(
+    Corr("gen.resolver", gen_resolver, impl_resolver, nontrivial=lambda a, o: any(c["deps"] for c in a["classes"]),
+         describe="DependenciesResolver.process / sorted_imports / sorted_classes on real Class objects (the model of Props/C07Layout's import-sufficiency theorems)",
+         classify=lambda a, o: ("err:" + str(o["err"])[:30]) if "err" in o else
+         f"imports={min(len(o['ok']['imports']), 3)},aliases={'y' if any(i[2] for i in o['ok']['imports']) else 'n'}")
+)
 
 # ----------------------------------------------------------------- oracles
 # Everything below states the property on the implementation, with its own
@@ -1379,8 +1500,8 @@ def covered_fields(a, msg):
         return None
     ids = set()
     for i, j in _collisions(finals):
-        if own_slug(ref_names[i]) != own_slug(ref_names[j]) or "" in (own_slug(ref_names[i]), own_slug(ref_names[j])):
-            # different slugs (or the empty slug that is keyed as "value"): only safe_name's rewriting makes them equal
+        if own_slug(ref_names[i]) != own_slug(ref_names[j]):
+            # different slugs after the documented renaming: only safe_name's rewriting makes them equal
             ids.add("C07-safe-prefix-collision")
         else:
             return None
@@ -1389,6 +1510,11 @@ def covered_fields(a, msg):
 
 def gen_oracle_fields(rng, tier):
     yield from gen_rename_attrs(rng, "quick")
+
+
+def _own_ns(qname):
+    """namespace part of `{ns}name` (own reading of the Clark notation, not xsdata's helper)"""
+    return qname[1:qname.index("}")] if qname.startswith("{") and "}" in qname else None
 
 
 def oracle_classes(a):
@@ -1410,7 +1536,7 @@ def oracle_classes(a):
     for i in range(len(objs)):
         for j in range(i):
             same_scope = config_unique or (
-                namespaces.target_uri(a["classes"][i]["qname"]) == namespaces.target_uri(a["classes"][j]["qname"])
+                _own_ns(a["classes"][i]["qname"]) == _own_ns(a["classes"][j]["qname"])
             )
             if same_scope and finals[i] == finals[j]:
                 return (f"classes #{j} {a['classes'][j]['qname']!r} and #{i} {a['classes'][i]['qname']!r} "
@@ -1476,7 +1602,7 @@ XML_NAMES = [
     "a", "A", "a_", "_a", "a-b", "a.b", "aB", "AB", "class", "Class", "None", "await", "type", "Type", "value", "Value",
     "value_1", "_1", "é", "名", "a名", "a_Attribute", "a_Element", "class_value", "type_1", "NoneType", "a1", "a_1",
     "_", "__", "a⁰", "str", "self", "Meta", "QName", "list", "x-1", "x_1", "x1", "Any", "import",
-    "def", "field", "Field", "a-Attribute", "yield", "async", "match", "\u2fe0",
+    "def", "field", "Field", "a-Attribute", "yield", "async", "match", "\u2fe0", "__a",
 ]
 ENUM_VALUES = ["1", "value_1", "a", "A", "-1", "1.0", "", " ", "a b", "a-b", "class", "None", "await", "é", "名", "+", "_", "-", "VALUE_1", "value-1", "#", "1a"]
 
@@ -1495,7 +1621,8 @@ def build_xsd(spec):
             out.append(f'<xs:complexContent><xs:extension base="{esc(t["base"])}">')
         model = t.get("model", "sequence")
         out.append('<xs:choice maxOccurs="unbounded">' if model == "choice" else "<xs:sequence>")
-        for e in t["elements"]:
+        def emit(e, top):
+            # a name (xs:string), [name, type] or [name, None, [elements]] (anonymous complexType, any depth)
             if isinstance(e, str):
                 out.append(f'<xs:element name="{esc(e)}" type="xs:string"/>')
             elif len(e) == 2:
@@ -1503,11 +1630,11 @@ def build_xsd(spec):
             else:
                 out.append(f'<xs:element name="{esc(e[0])}" minOccurs="0"><xs:complexType><xs:sequence>')
                 for ie in e[2]:
-                    if isinstance(ie, str):
-                        out.append(f'<xs:element name="{esc(ie)}" type="xs:string"/>')
-                    else:
-                        out.append(f'<xs:element name="{esc(ie[0])}" type="{esc(ie[1])}" minOccurs="0"/>')
+                    emit(ie, False)
                 out.append("</xs:sequence></xs:complexType></xs:element>")
+
+        for e in t["elements"]:
+            emit(e, True)
         out.append("</xs:choice>" if model == "choice" else "</xs:sequence>")
         for at in t["attributes"]:
             out.append(f'<xs:attribute name="{esc(at)}" type="xs:string"/>')
@@ -1616,60 +1743,91 @@ def _field_local_name(st):
     return st.target.id
 
 
+def _field_refs(st):
+    """(XML name, type source) pairs of one generated field: the field itself and, for a compound
+    field, every entry of metadata["choices"]"""
+    own = [(_field_local_name(st), ast.unparse(st.annotation))]
+    out = []
+    v = st.value
+    if isinstance(v, ast.Call):
+        for kwd in v.keywords:
+            if kwd.arg == "metadata" and isinstance(kwd.value, ast.Dict):
+                for k, val in zip(kwd.value.keys, kwd.value.values):
+                    if isinstance(k, ast.Constant) and k.value == "choices" and isinstance(val, (ast.Tuple, ast.List)):
+                        for ch in val.elts:
+                            if isinstance(ch, ast.Dict):
+                                d = {kk.value: vv for kk, vv in zip(ch.keys, ch.values) if isinstance(kk, ast.Constant)}
+                                if "type" in d:
+                                    nm = d.get("name")
+                                    out.append((nm.value if isinstance(nm, ast.Constant) else None, ast.unparse(d["type"])))
+    return out or own  # the elements of a compound field are its choices
+
+
 def scan_class(node):
     is_enum = any(getattr(b, "id", None) == "Enum" for b in node.bases)
-    members, inner = [], []
+    members, inner, refs = [], [], []
     for st in node.body:
         if isinstance(st, ast.AnnAssign) and isinstance(st.target, ast.Name):
             members.append((st.target.id, _field_local_name(st)))
+            refs.extend(_field_refs(st))
         elif is_enum and isinstance(st, ast.Assign) and isinstance(st.targets[0], ast.Name):
             val = st.value.value if isinstance(st.value, ast.Constant) else ast.unparse(st.value)
             members.append((st.targets[0].id, val if isinstance(val, str) else repr(val)))
         elif isinstance(st, ast.ClassDef) and st.name != "Meta":
             inner.append(st)
-    return {"name": node.name, "local": _meta_name(node) or node.name, "enum": is_enum, "members": members, "inner": inner}
+    return {"name": node.name, "local": _meta_name(node) or node.name, "enum": is_enum, "members": members, "inner": inner,
+            "refs": refs}
 
 
-def scan_sources(srcs, opts):
-    """What the files that were really written contain: syntax, duplicate members / inner classes /
-    module-level classes. Returns a failure message or None."""
+def _refers_to(type_src, dotted):
+    return re.search(r"(?<![\w.])" + re.escape(dotted) + r"(?![\w.])", type_src) is not None
+
+
+def scan_failures(srcs, opts):
+    """What the files that were really written contain. Returns (fatal, duplicates): `fatal` = a file
+    is not valid Python (nothing else can be looked at); `duplicates` = one message per duplicate
+    member name / inner class name / module-level class name, in file and source order."""
+    dups = []
     for rel, text_ in sorted(srcs.items()):
         try:
             tree = ast.parse(text_)
         except SyntaxError as e:
-            return f"generated module {rel} is not valid Python: SyntaxError: {e.msg}: {(e.text or '').strip()[:60]!r}"
+            return f"generated module {rel} is not valid Python: SyntaxError: {e.msg}: {(e.text or '').strip()[:60]!r}", dups
         if rel.endswith("__init__.py"):
             continue
         top = {}
 
-        def walk(node):
+        def walk(node, path):
             info = scan_class(node)
             names = [m[0] for m in info["members"]]
-            dup = [n for n in dict.fromkeys(names) if names.count(n) > 1]
-            if dup:
-                srcs_ = [loc for n, loc in info["members"] if n == dup[0]]
+            for d in [n for n in dict.fromkeys(names) if names.count(n) > 1]:
+                srcs_ = [loc for n, loc in info["members"] if n == d]
                 conv = "screamingSnakeCase" if info["enum"] else opts.get("field_case", "snakeCase")
-                return (f"class {info['name']} of {[m[1] for m in info['members']]!r}: members {srcs_!r} "
-                        f"all become {dup[0]!r} ({conv})")
+                dups.append(f"class {info['name']} of {[m[1] for m in info['members']]!r}: members {srcs_!r} "
+                            f"all become {d!r} ({conv})")
             inames = [i.name for i in info["inner"]]
-            if len(set(inames)) != len(inames):
-                return f"class {info['name']}: duplicate inner class names {inames!r}"
+            for d in [n for n in dict.fromkeys(inames) if inames.count(n) > 1]:
+                # the XML names of the fields / choices whose type is the inner class of that name
+                users = list(dict.fromkeys(loc for loc, tsrc in info["refs"] if _refers_to(tsrc, path + "." + d)))
+                dups.append(f"class {path}: duplicate inner class names {inames!r}: {inames.count(d)} classes {d!r} "
+                            f"for the fields {users!r} of {info['local']!r}")
             for i in info["inner"]:
-                m = walk(i)
-                if m:
-                    return m
-            return None
+                walk(i, path + "." + i.name)
 
         for node in tree.body:
             if isinstance(node, ast.ClassDef):
                 loc = _meta_name(node) or node.name
                 if node.name in top:
-                    return f"module {rel}: classes {top[node.name]!r} and {loc!r} are both named {node.name!r}"
+                    dups.append(f"module {rel}: classes {top[node.name]!r} and {loc!r} are both named {node.name!r}")
                 top[node.name] = loc
-                m = walk(node)
-                if m:
-                    return m
-    return None
+                walk(node, node.name)
+    return None, dups
+
+
+def scan_sources(srcs, opts):
+    """first failure of `scan_failures` (or None)"""
+    fatal, dups = scan_failures(srcs, opts)
+    return fatal or (dups[0] if dups else None)
 
 
 def bind_and_instantiate(g):
@@ -1720,21 +1878,31 @@ def bind_and_instantiate(g):
     return None
 
 
-def masked_import_error(g, opts, kind):
+def _has_empty_key(o):
+    if isinstance(o, dict):
+        return any(k == "" or _has_empty_key(v) for k, v in o.items())
+    if isinstance(o, list):
+        return any(_has_empty_key(v) for v in o)
+    return False
+
+
+def masked_import_error(g, opts, a):
     """`ResourceTransformer.process` reports *every* ImportError of `validate_imports` as
-    CodegenError("Circular Dependencies Found"). That is the generator's own error type for the two
-    situations it cannot lay out — a module file next to a package directory of the same name, and a
-    genuine import cycle between modules of a style that does not cluster cycles — but it must not
-    hide a package that simply does not import."""
+    CodegenError("Circular Dependencies Found"). That is the generator's own error type for the one
+    situation these sources can produce that it cannot lay out — a module file next to a package
+    directory of the same name — but it must not hide a package that simply does not import."""
+    kind = a["kind"]
     cause = g.error.__cause__ or g.error.__context__
     if not isinstance(cause, ImportError):
         # CodegenError is the generator's answer to input it cannot handle; the consistency checks of
         # ValidateReferences / DependenciesResolver / the container failing on a *valid* source is an
         # internal error in disguise
         text_ = str(g.error)
-        legit = ("Json keys can not be empty", "Invalid safe prefix",
-                 "Found strongly connected types from different namespaces")
-        if any(text_.startswith(x) for x in legit):
+        # the generator's documented answers to input it cannot handle, each only where it applies:
+        # a JSON sample with an empty key. (No source of this oracle sets a safe prefix, so "Invalid safe
+        # prefix" would be a rejection of the defaults; none has types of two namespaces that need each
+        # other, so "Found strongly connected types from different namespaces" has no legitimate cause.)
+        if text_.startswith("Json keys can not be empty") and kind == "json" and _has_empty_key(a["doc"]):
             return None
         return f"generation gave up on a valid source with an internal consistency error: CodegenError({text_!r}, {getattr(g.error, 'meta', {})!r})"[:300]
     style = opts.get("style", "filenames")
@@ -1745,33 +1913,173 @@ def masked_import_error(g, opts, kind):
         # one module per cluster), so nothing can excuse an ImportError
         return what
     files = set(g.sources())
-    clash = any(f[:-3] + "/__init__.py" in files for f in files if f.endswith(".py") and not f.endswith("__init__.py"))
-    if clash:
-        return None  # layout limit: module `p/m.py` and package `p/m/` (two namespaces / a class and a namespace)
-    if "partially initialized module" in str(cause) and style in ("filenames", "namespaces"):
-        return None  # documented limit of these styles: modules that need each other
+    # layout limit: module `p/m.py` and package `p/m/` (two namespaces whose package paths nest / a class
+    # and a namespace of one name): the import system finds the package where the module was meant.
+    # Only an ImportError about that very module is this limit.
+    clashing = [f[:-3].replace("/", ".") for f in files
+                if f.endswith(".py") and not f.endswith("__init__.py") and f[:-3] + "/__init__.py" in files]
+    if any(f"'{m}'" in str(cause) or f"'{m}." in str(cause) for m in clashing):
+        return None
+    # (The sources of this oracle never make the imported schema refer back to the importing one, and a
+    # sample's child elements never refer to their parents: a cycle between modules — "partially
+    # initialized module", "Found strongly connected types from different namespaces" — has no
+    # legitimate cause here and is reported.)
     return what
+
+
+def pipeline_failures(a):
+    """Every way the real generation run on `a` fails the property, in the order it is looked at:
+    files that do not compile; duplicate members / inner classes / module-level classes (all of
+    them, read from the written files); an exception other than a justified CodegenError out of the
+    generation or out of importing the package; a class that does not bind / instantiate."""
+    g = generate(a)
+    try:
+        opts = a.get("opts", {})
+        fatal, msgs = scan_failures(g.sources(), opts)
+        if fatal:
+            return [fatal]
+        msgs = list(msgs)
+        if g.error is not None:
+            if isinstance(g.error, CodegenError):
+                m = masked_import_error(g, opts, a)  # the generator's own error type, unless it hides a defect
+                if m:
+                    msgs.append(m)
+            elif isinstance(g.error, (KeyboardInterrupt, SystemExit)):
+                raise g.error
+            else:
+                msgs.append(f"generation raised {type(g.error).__name__}: {str(g.error)[:80]} (not CodegenError)")
+        else:
+            m = bind_and_instantiate(g)
+            if m:
+                m2 = re.search(r"Error on ([\w.]+)::(\w+): Compound field contains ambiguous types", m)
+                if m2:
+                    m += f"; choice types {_choice_types(g.sources(), m2.group(1), m2.group(2))!r}"
+                m = _explain_clash(m, g.sources())
+                msgs.append(m)
+        return _drop_restatements(msgs)
+    finally:
+        g.close()
+
+
+def _choice_types(srcs, qualname, field_name):
+    """type sources of the choices of field `field_name` of the generated class `qualname`"""
+    for rel, text_ in sorted(srcs.items()):
+        if rel.endswith("__init__.py"):
+            continue
+        body = ast.parse(text_).body
+        node = None
+        for part in qualname.split("."):
+            node = next((x for x in body if isinstance(x, ast.ClassDef) and x.name == part), None)
+            if node is None:
+                break
+            body = node.body
+        if node is None:
+            continue
+        for st in node.body:
+            if isinstance(st, ast.AnnAssign) and isinstance(st.target, ast.Name) and st.target.id == field_name:
+                return [t for _, t in _field_refs(st)]
+    return []
+
+
+def _find_class(srcs, qualname):
+    for rel, text_ in sorted(srcs.items()):
+        if rel.endswith("__init__.py"):
+            continue
+        body = ast.parse(text_).body
+        node = None
+        for part in qualname.split("."):
+            node = next((x for x in body if isinstance(x, ast.ClassDef) and x.name == part), None)
+            if node is None:
+                break
+            body = node.body
+        if node is not None:
+            return node
+    return None
+
+
+def _field_inner_clashes(srcs):
+    """[(class qualname, field name, XML name of the field, kind, XML names of the fields / choices that
+    use the class of that name)] for every generated class with a field called like a class its type
+    hints refer to: kind "inner" = one of its inner classes (the class statement, which comes after the
+    fields, replaces the field's `field(...)` default — its metadata is gone — and under `slots=True`
+    the slot descriptor replaces the class in turn); kind "module" = a module-level class (the class
+    namespace is searched first when the hints are resolved: the slot / default is found instead)"""
+    out = []
+    trees = [ast.parse(text_).body for rel, text_ in sorted(srcs.items()) if not rel.endswith("__init__.py")]
+    top = {node.name for body in trees for node in body if isinstance(node, ast.ClassDef)}
+
+    def walk(node, path):
+        info = scan_class(node)
+        inames = [i.name for i in info["inner"]]
+        for n, loc in info["members"]:
+            if n in inames:
+                users = list(dict.fromkeys(l2 for l2, tsrc in info["refs"] if _refers_to(tsrc, path + "." + n)))
+                out.append((path, n, loc, "inner", users))
+            elif n in top:
+                users = list(dict.fromkeys(l2 for l2, tsrc in info["refs"] if _refers_to(tsrc, n)))
+                if users:
+                    out.append((path, n, loc, "module", users))
+        for i in info["inner"]:
+            walk(i, path + "." + i.name)
+
+    for body in trees:
+        for node in body:
+            if isinstance(node, ast.ClassDef):
+                walk(node, node.name)
+    return out
+
+
+_CLASH_KINDS = (
+    r"XmlContextError: Error on ([\w.]+)::(\w+): Xml \w+ does not support typing",  # the metadata of the field is gone / its type is the slot
+    r"TypeError: unsupported operand type\(s\) for \|: '[\w.]+' and 'member_descriptor'",  # slots: `None | T.b` finds the slot
+)
+
+
+def _explain_clash(m, srcs):
+    """append what the sources show to a binding failure of the two kinds a field / inner class name
+    clash produces"""
+    m1 = re.search(_CLASH_KINDS[0], m)
+    m2 = re.search(_CLASH_KINDS[1], m)
+    if not (m1 or m2):
+        return m
+    clashes = _field_inner_clashes(srcs)
+    if m1:
+        # (the class named in the error may have inherited the field from the class with the clash)
+        same = [c for c in clashes if c[1] == m1.group(2)]
+        clashes = [c for c in same if c[0] == m1.group(1)] or same
+    if not clashes:
+        return m
+    if m1:  # (the type in the message carries the scratch package name: leave it out)
+        m = re.sub(r"(: Xml \w+ does not support typing).*$", r"\1 a collection", m, flags=re.S)
+    q, f, loc, kind, users = clashes[0]
+    return m + f"; field {f!r} (element {loc!r}) is also the name of the {kind} class that the hints of {q} use for the elements {users!r}"
+
+
+def _drop_restatements(msgs):
+    """The interpreter's own words for a duplicate that is already in the list say nothing new: an
+    Enum body that defines member F twice makes the import fail with TypeError `'F' already defined` /
+    `Attempted to reuse key: 'F'` — the same failure as `members [..] all become 'F'` of an Enum."""
+    enum_dups = {m2.group(1) for x in msgs for m2 in [re.search(r"all become '([^']*)' \(screamingSnakeCase\)$", x)] if m2}
+    out = []
+    for x in msgs:
+        m2 = re.match(r"generation raised TypeError: (?:'([^']*)' already defined as|Attempted to reuse key: '([^']*)')", x)
+        if m2 and (m2.group(1) or m2.group(2)) in enum_dups:
+            continue
+        out.append(x)
+    return out
 
 
 def oracle_pipeline(a):
     """End to end on the real generator: generation ends (only CodegenError may escape), every file
     written is valid Python without duplicate members / classes, every module imports, every class
-    yields binding metadata and an instance."""
-    g = generate(a)
-    try:
-        opts = a.get("opts", {})
-        msg = scan_sources(g.sources(), opts)
-        if msg:
-            return msg
-        if g.error is not None:
-            if isinstance(g.error, CodegenError):
-                return masked_import_error(g, opts, a["kind"])  # the generator's own error type, unless it hides a defect
-            if isinstance(g.error, (KeyboardInterrupt, SystemExit)):
-                raise g.error
-            return f"generation raised {type(g.error).__name__}: {str(g.error)[:80]} (not CodegenError)"
-        return bind_and_instantiate(g)
-    finally:
-        g.close()
+    yields binding metadata and an instance. Of several failures on one input the first one that no
+    listed finding explains is returned (a listed finding suppresses the failure it describes, not
+    whatever else goes wrong with a source that happens to contain it)."""
+    msgs = pipeline_failures(a)
+    for m in msgs:
+        if not covered_pipeline(a, m, msgs):
+            return m
+    return msgs[0] if msgs else None
 
 
 def generated_members(a, class_local="t"):
@@ -1791,18 +2099,23 @@ def generated_members(a, class_local="t"):
         g.close()
 
 
+def _element_names(elements):
+    """names of the elements of a type spec, anonymous types included (any depth)"""
+    out = []
+    for e in elements:
+        out.append(e if isinstance(e, str) else e[0])
+        if not isinstance(e, str) and len(e) > 2:
+            out += _element_names(e[2])
+    return out
+
+
 def _all_names(a):
     if a["kind"] == "xsd":
         sp = a["spec"]
         out = [seg for seg in re.split(r"[:/.]", sp.get("tns") or "") if seg]
         for t in sp["types"]:
             out += [t["name"], *t["attributes"]]
-            for e in t["elements"]:
-                if isinstance(e, str):
-                    out.append(e)
-                else:
-                    out.append(e[0])
-                    out += [ie if isinstance(ie, str) else ie[0] for ie in (e[2] if len(e) > 2 else [])]
+            out += _element_names(t["elements"])
         out += [e["name"] for e in sp["elements"]]
         for en in sp["enums"]:
             out += [en["name"], *en["values"]]
@@ -1835,19 +2148,126 @@ def _all_names(a):
     return re.findall(r"<([^\s/>!?][^\s/>]*)", doc) + re.findall(r"\s([^\s=<>\"']+)=", doc)
 
 
-def covered_pipeline(a, msg):
-    names = _all_names(a)
+def _class_source_names(a):
+    """the source names that can become classes (complex types, global and local elements,
+    enumerations; for samples every element / key), as opposed to attribute names, enumeration
+    values and namespace segments"""
+    if a["kind"] == "xsd":
+        sp = a["spec"]
+        out = [t["name"] for t in sp["types"]] + [e["name"] for e in sp["elements"]]
+        for t in sp["types"]:
+            # an element with an anonymous type is an inner class; any element of a repeating choice
+            # may get a class of its own (DisambiguateChoices)
+            out += _element_names(t["elements"])
+        for en in sp["enums"]:
+            out += [en["name"], en["name"] + "_el"]
+        return out
+    if a["kind"] == "xsd2":
+        sp = a["spec"]
+        out = [t["name"] for t in sp["b_types"]]
+        for en in sp.get("b_enums", []):
+            out += [en["name"], en["name"] + "_el"]
+        for t in sp["b_types"]:
+            out += list(t["elements"])
+        for t in sp["a_types"]:
+            out += [t["name"], t["name"] + "_el", *t["elements"], *[r[0] for r in t.get("refs", [])]]
+        return out
+    return _all_names(a)
+
+
+def ref_inner_names(locals_, outer_local):
+    """Documented VacuumInnerClasses on the inner classes named after the elements `locals_` of the
+    class `outer_local`: an inner class called like its outer class gets `_Inner`, a later one whose
+    slug is taken gets the next free index."""
+    out, reserved = [], set()
+    for n in locals_:
+        if n == outer_local:
+            n = f"{n}_Inner"
+        if own_slug(n) in reserved:
+            k = 1
+            while own_slug(f"{n}_{k}") in reserved:
+                k += 1
+            n = f"{n}_{k}"
+        reserved.add(own_slug(n))
+        out.append(n)
+    return out
+
+
+def covered_pipeline(a, msg, msgs=None):
+    """Is the failure `msg` of the end-to-end run on `a` one of the listed findings? (Returns its id.)
+    C07-safe-prefix-collision: only a duplicate-name message can be, and only when the *documented*
+    algorithm (reference: de-duplication on slugs, then `safe_name`) yields that very duplicate from
+    names with different slugs. `msgs` = all failures of the run: a later failure that merely restates
+    such a duplicate in the interpreter's / binding layer's words (a compound field whose choices name
+    the duplicated class, an error that names the shadowed class) is the same failure.
+    C07-field-named-like-inner-class, C07-dunder-inner-class-mangled: one failure kind each, and the
+    documented names of the elements involved must be the ones of the message."""
+    m = re.search(r"Compound field contains ambiguous types; choice types (\[.*\])$", msg)
+    if m:
+        # two choices of one compound field have the same type. The same failure as a duplicate class
+        # name iff every type that occurs twice is a class that a covered duplicate message names
+        types = ast.literal_eval(m.group(1))
+        twice = {t for t in types if types.count(t) > 1}
+        dup_classes = []
+        for other in msgs or []:
+            if other is msg or not covered_pipeline(a, other):
+                continue
+            mi = re.match(r"class ([\w.]+): duplicate inner class names .*?: \d+ classes '(\w+)' for the fields", other)
+            mm = re.search(r"are both named '(\w+)'$", other)
+            if mi:
+                dup_classes.append(mi.group(1) + "." + mi.group(2))
+            elif mm:
+                dup_classes.append(mm.group(1))
+        if twice and all(any(_refers_to(t, d) for d in dup_classes) for t in twice):
+            return "C07-safe-prefix-collision"
+        return None
+    m = re.search(r"(?:Xml \w+ does not support typing a collection|and 'member_descriptor'); field '(\w+)' \(element ('(?:[^'\\]|\\.)*')\) is also the name of the (inner|module) class that the hints of [\w.]+ use for the elements (\[.*\])$", msg)
+    if m:
+        # C07-field-named-like-inner-class: user conventions under which the documented field name of one
+        # element and the documented class name of another source name coincide (impossible under the
+        # default pair: snakeCase has no capital, pascalCase starts with one). An inner class is named
+        # after the element that uses it; a module-level class after a type / element of the source.
+        fname, local, kind, users = m.group(1), ast.literal_eval(m.group(2)), m.group(3), ast.literal_eval(m.group(4))
+        o = a.get("opts", {})
+        fcase, ccase = o.get("field_case", "snakeCase"), o.get("class_case", "pascalCase")
+        var = lambda n: [n] + [f"{n}_{k}" for k in range(1, 10)]  # noqa: E731  (numeric suffixes of the renaming handlers)
+        sources = [u for u in users if isinstance(u, str)] if kind == "inner" else _class_source_names(a)
+        if (any(ref_safe_name(x, "value", fcase) == fname for x in var(local))
+                and any(ref_safe_name(y, "type", ccase) == fname for u in sources for y in var(u))):
+            return "C07-field-named-like-inner-class"
+        return None
+    m = re.search(r"build_recursive raised AttributeError: type object '(\w+)' has no attribute '(__\w*?[^_\W]_?)'$", msg)
+    if m:
+        # C07-dunder-inner-class-mangled: only originalCase keeps leading underscores; the documented class
+        # name of some element of the source is that very `__name` (not a `__dunder__`)
+        ccase = a.get("opts", {}).get("class_case", "pascalCase")
+        names = _class_source_names(a)
+        cands = names + [f"{n}_Inner" for n in names] + [f"{n}_{k}" for n in names for k in range(1, 10)]
+        if ccase == "originalCase" and any(ref_safe_name(n, "type", ccase) == m.group(2) for n in cands):
+            return "C07-dunder-inner-class-mangled"
+        return None
+    m = re.match(r"(?:generation raised \w+: |class [\w.]+: XmlContext\.build_recursive raised |class [\w.]+ cannot be instantiated: |enum [\w.]+ cannot be listed: )(.*)$", msg, re.S)
+    if m:
+        # two module-level classes under one name: the first is shadowed, whatever refers to it gets the
+        # other class (an Enum as base class, a dataclass as field type ...). A failure of the import /
+        # binding stage that names that class is the same failure in the interpreter's words.
+        for other in msgs or []:
+            mm = re.search(r"are both named '(\w+)'$", other)
+            if mm and other is not msg and covered_pipeline(a, other) and re.search(r"(?<![\w])" + re.escape(mm.group(1)) + r"(?![\w])", m.group(1)):
+                return "C07-safe-prefix-collision"
+        return None
     m = re.search(r"of (\[.*\]): members (\[.*\]) all become '([^']*)' \((\w+)\)", msg)
     if m:
-        members = ast.literal_eval(m.group(1))
         srcs = ast.literal_eval(m.group(2))
         final = m.group(3)
         conv = m.group(4)
         pfx = "value"
-        # each colliding member under the name the handlers may have given it (numeric suffix of
-        # rename_attributes_by_index): different slugs, yet the documented safe_name maps all to `final`
+        # each colliding member under the name the handlers may have given it (the tag suffix of
+        # rename_attribute_by_preference, the numeric suffix of unique_name): different slugs, yet the
+        # documented safe_name maps all to `final`
         def variants(s0):
-            return [v for v in [s0] + [f"{s0}_{k}" for k in range(1, 10)] if ref_safe_name(v, pfx, conv) == final]
+            stems = [s0, f"{s0}_Attribute", f"{s0}_Element"]
+            return [v for st in stems for v in [st] + [f"{st}_{k}" for k in range(1, 10)] if ref_safe_name(v, pfx, conv) == final]
 
         vs = [variants(s0) for s0 in srcs]
         if all(vs) and len(srcs) > 1:
@@ -1856,20 +2276,27 @@ def covered_pipeline(a, msg):
                 if len(set(slugs)) == len(slugs):
                     return "C07-safe-prefix-collision"
         return None
-    m = re.search(r"duplicate inner class names (\[.*\])", msg)
+    m = re.search(r"duplicate inner class names (\[.*?\]): (\d+) classes ('(?:[^'\\]|\\.)*') for the fields (\[.*\]) of ('(?:[^'\\]|\\.)*')$", msg)
     if m:
-        inner = ast.literal_eval(m.group(1))
+        n, dup, users, outer = int(m.group(2)), ast.literal_eval(m.group(3)), ast.literal_eval(m.group(4)), ast.literal_eval(m.group(5))
         ccase = a.get("opts", {}).get("class_case", "pascalCase")
-        for dup in {x for x in inner if inner.count(x) > 1}:
-            cands = {n for n in names if ref_safe_name(n, "type", ccase) == dup}
-            # inner classes named after elements with different slugs that the documented safe_name maps to one name
-            if len({own_slug(n) for n in cands}) < 2:
-                return None
-        return "C07-safe-prefix-collision"
+        if any(not isinstance(u, str) for u in users):
+            return None
+        # the inner classes are named after the elements that use them; replay the documented
+        # renaming of inner classes and the documented safe_name: exactly `n` of them (with pairwise
+        # different slugs after the renaming) must come out as `dup`
+        # (an inner class called like its outer class gets `_Inner` only if it exists when VacuumInnerClasses
+        # runs; the classes DisambiguateChoices creates later do not: both replays are the documented behaviour)
+        for outer_ in (outer, None):
+            predicted = [ref_safe_name(x, "type", ccase) for x in ref_inner_names(users, outer_)]
+            if n > 1 and predicted.count(dup) == n:
+                return "C07-safe-prefix-collision"
+        return None
     m = re.search(r"classes ('(?:[^'\\]|\\.)*') and ('(?:[^'\\]|\\.)*') are both named ('(?:[^'\\]|\\.)*')", msg)
     if m:
         q1, q2, final = (ast.literal_eval(x) for x in m.groups())
         ccase = a.get("opts", {}).get("class_case", "pascalCase")
+        names = _class_source_names(a)
         # enumerations carry no Meta.name, so the source names are looked up in the input
         # (a class may first have received a numeric suffix from RenameDuplicateClasses)
         variants = [(n, n) for n in names] + [(f"{n}_{k}", n) for n in names for k in range(1, 10)]
@@ -1904,7 +2331,21 @@ def gen_pipeline(rng, tier):
     yield xsd([{**ty("t", [["a", "u"], ["b", "u"]]), "model": "choice"}, ty("u", ["x"])], [{"name": "r", "type": "t"}],
               tns="urn:x", compound=True, unnest=True, style="namespaces")
     yield xsd([ty("t", ["class", "class_value", "await"])])
+    # the name of a compound field against the other attrs of the class: the default name (more than
+    # max_name_parts elements) next to an attribute `choice`, the joined name next to an attribute `a_Or_b`
+    yield xsd([{**ty("t", ["a", "b", "c", "d"], ["choice", "choice_1"]), "model": "choice"}], [{"name": "r", "type": "t"}], compound=True)
+    yield xsd([{**ty("t", ["a", "b"], ["a_Or_b", "A_or_B_1"]), "model": "choice"}], [{"name": "r", "type": "t"}], compound=True)
     yield xsd([ty("t", ["a", "A", "a_"], ["a"])])
+    # a repeating element with an anonymous type under conventions that give the field and its inner
+    # class one name (C07-field-named-like-inner-class)
+    yield xsd([{**ty("t", [["b", None, ["p"]]]), "model": "choice"}], [{"name": "r", "type": "t"}], class_case="snakeCase")
+    yield xsd([{**ty("t", [["b", None, ["p"]]]), "model": "choice"}], [{"name": "r", "type": "t"}], field_case="pascalCase", compound=True)
+    # anonymous types inside anonymous types: inner classes of inner classes (T.A.B in the type hints)
+    yield xsd([ty("t", [["a", None, [["b", None, ["c", ["d", "t"]]], "e"]]])], [{"name": "r", "type": "t"}])
+    yield xsd([{**ty("t", [["a", None, [["A", None, ["c"]], ["a_", None, ["c"]]]], "s"]), "model": "choice"}], [{"name": "r", "type": "t"}], compound=True)
+    # an inner class whose name keeps two leading underscores (class names in originalCase): Python mangles
+    # `t.__a` inside the class body (C07-dunder-inner-class-mangled)
+    yield xsd([ty("t", [["__a", None, ["p"]], "b"])], [{"name": "r", "type": "t"}], class_case="originalCase")
     yield xsd([ty("None"), ty("NoneType")], [{"name": "r", "type": "None"}])
     yield xsd([ty("a"), ty("A")], [{"name": "a", "type": "A"}])
     yield xsd(enums=[{"name": "e", "values": ["1", "value_1", "a", "A"]}])
@@ -1931,6 +2372,7 @@ def gen_pipeline(rng, tier):
         {"relative_imports": True, "style": "namespaces"}, {"relative_imports": True, "style": "clusters"},
         {"generic_collections": True}, {"wrapper": True, "compound": True}, {"compound": True, "unnest": True, "frozen": True},
         {"field_case": "camelCase", "class_case": "mixedSnakeCase"}, {"field_case": "mixedCase", "class_case": "snakeCase"},
+        {"eq": False}, {"order": True}, {"order": True, "unsafe_hash": True, "frozen": True}, {"eq": False, "slots": True},
     ]
     two = {"kind": "xsd2", "spec": {
         "tns_a": "http://www.example.com/class/1", "tns_b": "urn:x-y:None",
@@ -1967,7 +2409,12 @@ def gen_pipeline(rng, tier):
                 if r2 < 0.55:
                     els.append([rng.choice(enames), tgt])
                 elif r2 < 0.7:
-                    els.append([rng.choice(enames), None, [[rng.choice(enames), rng.choice(names)], rng.choice(enames)]])
+                    # (sibling elements get different names: one name with two types is not a valid schema)
+                    n1, n2, n3, n4, n5 = rng.sample(enames, 5)
+                    inner_els = [[n1, rng.choice(names)], n2]
+                    if rng.random() < 0.3:
+                        inner_els.append([n3, None, [n4, [n5, rng.choice(names)]]])
+                    els.append([rng.choice(enames), None, inner_els])
                 else:
                     els.append(rng.choice(enames))
             # the same element name twice in a sequence is legal only with the same type: keep the first
@@ -1987,6 +2434,11 @@ def gen_pipeline(rng, tier):
         for k2, pr in (("frozen", 0.2), ("slots", 0.2), ("relative_imports", 0.3), ("generic_collections", 0.2)):
             if rng.random() < pr:
                 opts[k2] = True
+        # naming conventions meet inner classes, base classes and compound fields here
+        if rng.random() < 0.25:
+            opts["field_case"] = rng.choice(CASES)
+        if rng.random() < 0.25:
+            opts["class_case"] = rng.choice(CASES)
         yield xsd(types, [{"name": rng.choice(enames), "type": rng.choice(names)}], [], rng.choice([None, None, "urn:x"]), **opts)
     for _ in range(40 if tier == "quick" else 400):
         pool = rng.sample(XML_NAMES, 8)
@@ -2014,9 +2466,12 @@ def gen_pipeline(rng, tier):
             "wrapper": rng.random() < 0.2,
             "unnest": rng.random() < 0.3,
         }
-        for k, pr in (("frozen", 0.25), ("slots", 0.25), ("relative_imports", 0.3), ("generic_collections", 0.25)):
+        for k, pr in (("frozen", 0.25), ("slots", 0.25), ("relative_imports", 0.3), ("generic_collections", 0.25),
+                      ("order", 0.15), ("unsafe_hash", 0.1)):
             if rng.random() < pr:
                 opts[k] = True
+        if rng.random() < 0.12 and not opts.get("order"):
+            opts["eq"] = False  # (order without eq is reset by OutputFormat.validate: not a configuration of its own)
         if rng.random() < 0.3:
             opts["field_case"] = rng.choice(CASES)
         if rng.random() < 0.3:
@@ -2140,11 +2595,37 @@ def _f_prefix_collision():
     _, finals = final_field_names(spec)
     spec2 = [{"tag": "Element", "name": "class", "ns": None}, {"tag": "Element", "name": "class_value", "ns": None}]
     _, finals2 = final_field_names(spec2)
-    return len(set(finals)) < 2 and len(set(finals2)) < 2, f"enum members {finals}, fields {finals2}"
+    finals3 = [F().class_name(n) for n in ("None", "NoneType")]  # different slugs: RenameDuplicateClasses sees no duplicate
+    return (len(set(finals)) < 2 and len(set(finals2)) < 2 and len(set(finals3)) < 2,
+            f"enum members {finals}, fields {finals2}, classes {finals3}")
+
+
+def _f_field_like_inner():
+    """complexType t with a repeating element `b` of an anonymous type, class names in snakeCase: field
+    `b` and inner class `b` of class `t`; the class statement replaces the field's default, the
+    metadata is lost and XmlContext.build_recursive(t) fails"""
+    a = {"kind": "xsd", "opts": {"class_case": "snakeCase"}, "spec": {"tns": None, "enums": [], "elements": [{"name": "r", "type": "t"}],
+         "types": [{"name": "t", "elements": [["b", None, ["p"]]], "attributes": [], "abstract": False, "model": "choice"}]}}
+    msgs = pipeline_failures(a)
+    hit = [m for m in msgs if "is also the name of the inner class that the hints of t use" in m]
+    return bool(hit) and covered_pipeline(a, hit[0], msgs) == "C07-field-named-like-inner-class", (hit or msgs or ["generation, import and binding succeed"])[0][:200]
+
+
+def _f_dunder_inner():
+    """complexType t with an element `__a` of an anonymous type, class names in originalCase: the inner
+    class is called `__a`; inside the body of class t Python mangles `t.__a` and the type hint cannot be
+    resolved"""
+    a = {"kind": "xsd", "opts": {"class_case": "originalCase"}, "spec": {"tns": None, "enums": [], "elements": [{"name": "r", "type": "t"}],
+         "types": [{"name": "t", "elements": [["__a", None, ["p"]], "b"], "attributes": [], "abstract": False}]}}
+    msgs = pipeline_failures(a)
+    hit = [m for m in msgs if "has no attribute '__a'" in m]
+    return bool(hit) and covered_pipeline(a, hit[0], msgs) == "C07-dunder-inner-class-mangled", (hit or msgs or ["generation, import and binding succeed"])[0][:200]
 
 
 FINDINGS = {
     "C07-safe-prefix-collision": _f_prefix_collision,
+    "C07-dunder-inner-class-mangled": _f_dunder_inner,
+    "C07-field-named-like-inner-class": _f_field_like_inner,
 }
 
 RULE = (
@@ -2165,7 +2646,7 @@ LEVEL_TEXT = (
     "for duplicate qnames, cycles or unprovided dependencies; DetectCircularReferences.is_circular decides reachability and always "
     "answers, after the handler no plain reference lies on a cycle (any processing order), flags are only set on real cycles, the "
     "remaining plain references are acyclic; inner classes of one class get different slugs; the class created for an ambiguous choice "
-    "lives in its source's namespace; final qnames are unique. The model is tied to /repo by a differential check (22 ops) and the "
+    "lives in its source's namespace; final qnames are unique. The model is tied to /repo by a differential check (23 ops, incl. the resolver model of the layout theorems) and the "
     "property itself is evaluated end to end on the REAL generator (transformer.process, all handlers, CodeWriter, validate_imports; "
     "stand-in only for the Jinja2 templates): files compile, no duplicate members / inner / module classes, the package imports (an "
     "ImportError or a consistency error hidden behind CodegenError counts as failure for valid sources), every class binds and "
@@ -2183,6 +2664,7 @@ TRUSTED = [
     "re `\\w`/`\\d` semantics on str patterns (Unicode alnum / Nd) are my reading of CPython's sre; compared through ops names.is_word, names.case(originalCase), names.safe_name",
     "harness/standin_render.py stands for templates/*.jinja2 (jinja2 is not installed); everything else in the end-to-end run is xsdata's own code",
     "ASCII case mapping only: split_words drops every non-ASCII character, proved in Proofs/Names.lean (splitWords_ascii)",
+    "harness/shims/toposort is this framework's re-implementation of toposort_flatten (the real package is not installed): the toposort_* theorems of Props/C07Layout.lean are about the shim's algorithm",
 ]
 ASSUMPTIONS = [
     "Filters run without user substitutions (GeneratorConfig() default); aliases/substitutions are not modelled",
